@@ -621,7 +621,9 @@ impl InnerLocustDB {
             let columns: Vec<_> = partition
                 .clone_column_handles()
                 .into_iter()
-                .map(|c| c.try_get().as_ref().unwrap().clone())
+                // A concurrent query for a column this partition lacks may already have
+                // inserted an empty placeholder handle, which carries no column.
+                .filter_map(|c| c.try_get().as_ref().cloned())
                 .collect();
             let (metadata, subpartitions) = subpartition(&self.opts, columns);
             let mut subpartitions_by_last_column = BTreeMap::new();
